@@ -237,7 +237,14 @@ def fit_world(args, scratch):
     os.makedirs(scratch, exist_ok=True)
     make_farm(scratch, args.get('canary'), args.get('repo'))
     runname, comp = args['runname'], int(args['compl'])
-    install_lib(scratch, args['lib_src'], runname)
+    if args.get('lib_src') and os.path.isdir(args['lib_src']):
+        install_lib(scratch, args['lib_src'], runname)
+    else:
+        # replay in a later process: the fixture directory of the original check run is gone; regenerate it
+        g = run_world(world_spec(dict(args, P=1, policy={'kind': 'lowest'}, script=None, plan=None, seed=0),
+                                 [['gen', dict(runname=runname, compl=comp)]]), scratch)
+        if g['violation'] is not None:
+            raise RuntimeError('fixture generation failed: %s' % g['violation']['sig'])
     like = dict(args['like'])
     like.setdefault('fn_set', runname)
     if like['cls'] in ('Gauss', 'Poisson'):
@@ -570,4 +577,16 @@ def history_world(args, scratch):
         probs = []      # a real-time cap expiry makes library bytes load dependent: no byte comparison
     out['probs'] = [list(map(str, p)) for p in probs]
     out['sig'] = ('history-dep:%s:%s' % (probs[0][0], probs[0][1])) if probs else None
+    return out
+
+
+# ------------------------------------------------------------------------------------------
+# self-test: the injector on a small victim module
+# ------------------------------------------------------------------------------------------
+def victim_world(args, scratch):
+    os.makedirs(scratch, exist_ok=True)
+    a = dict(args, P=1, tick_modules=['esr.generation.simplifier', 'victim_mod'])
+    res = run_world(world_spec(a, [['victim', dict(n=int(args.get('n', 2)))]]), scratch)
+    out = slim(res, keep_choices=False)
+    out['log'] = (res['ranks'][0]['out'] or {}).get('victim')
     return out
